@@ -200,8 +200,8 @@ def sparse_getitem(sparse, idxs):
                 indices = new_indices
                 values = values[mask]
             else:
-                indices.resize_(indices.size(0), 1).zero_()
-                values.resize_(1).zero_()
+                indices = indices.new_zeros(indices.size(0), 0)
+                values = values.new_zeros(0)
 
         else:
             raise RuntimeError("Unknown index type")
